@@ -182,7 +182,7 @@ impl<'l> Tokenizer<'l>
 			}
 			else if self.data.starts_with("/*")
 			{
-				let mut depth = 1; // support nested block comments
+				let mut depth = 1usize; // support nested block comments
 				let mut start = 2; // to avoid combinations like "/*/" and "*/*"
 				let comment_bytes = self.data.as_bytes()[..self.data.len() - 1].iter().copied().enumerate().skip(2).position(|(p, b)|
 				{
